@@ -24,7 +24,7 @@ pub mod pre {
     #[verifier::external_body]
     pub fn vec_new_u8() -> (v: Vec<u8>) ensures v@ == Seq::<u8>::empty(), cap_of(&v) == 0 { Vec::new() }
 
-    /// std::task::Waker / Context: a waker is identified by the task it wakes; `wake` appends to a ghost log (rule R6).
+    /// std::task::Waker / Context: a waker is identified by the task it wakes; `wake` appends the waker's id to a ghost log and a fingerprint of the shared state at that moment to a second one (rule R6).
     pub struct Waker { pub id: u64 }
     impl Waker {
         #[verifier::external_body]
@@ -32,7 +32,8 @@ pub mod pre {
         pub fn clone_from(&mut self, o: &Waker) ensures final(self).id == o.id { self.id = o.id; }
         pub fn clone(&self) -> (r: Waker) ensures r.id == self.id { Waker { id: self.id } }
         #[verifier::external_body]
-        pub fn wake(self, log: &mut Ghost<Seq<u64>>) ensures final(log)@ == old(log)@.push(self.id) { unimplemented!() }
+        pub fn wake(self, log: &mut Ghost<Seq<u64>>, seen: &mut Ghost<Seq<int>>, at: Ghost<int>)
+            ensures final(log)@ == old(log)@.push(self.id), final(seen)@ == old(seen)@.push(at@) { unimplemented!() }
     }
     pub struct Context { pub w: Waker }
     impl Context { pub fn waker(&self) -> (r: &Waker) ensures r.id == self.w.id { &self.w } }
